@@ -26,6 +26,9 @@ def _eval_chunk(args):
     return cnt, probs, samples
 
 
+THOROUGH_SWEEP_BUDGET_S = 1800.0
+
+
 def sweep(ctx, modname, cases, chunksize=40, budget_s=None):
     cases = perm(list(cases), ctx.seed)
     # interleave so that chunks have similar cost and a time cap cuts evenly
@@ -35,10 +38,28 @@ def sweep(ctx, modname, cases, chunksize=40, budget_s=None):
     done = 0
     import time
     t0 = time.time()
+    # a thorough sweep is bounded in time (VERIF_BUDGET_S, default 1800 s per sweep): the chunks are interleaved slices of
+    # the permuted case list, so a cut leaves an evenly spread sub-sample; the cut is reported as cap_hit and the tier is
+    # then not called exhaustive.  Quick tiers are never cut.
+    budget = budget_s or ctx.budget_s or (THOROUGH_SWEEP_BUDGET_S if ctx.tier == "thorough" else None)
     if len(chunks) <= 1:
         results = [_eval_chunk((modname, ctx.tier, c)) for c in chunks]
     else:
-        results = ctx.pool().map(_eval_chunk, [(modname, ctx.tier, c) for c in chunks])
+        pool = ctx.pool()
+        futs = [pool.submit(_eval_chunk, (modname, ctx.tier, c)) for c in chunks]
+
+        def gen():
+            cut = False
+            for k, f in enumerate(futs):
+                if budget and not cut and time.time() - t0 > budget:
+                    cut = True
+                    ncancel = sum(1 for g in futs[k:] if g.cancel())
+                    ctx.capped = (f"time budget of {budget:.0f} s per sweep reached in {modname.rsplit('.', 1)[-1]}: {len(futs) - ncancel} of {len(futs)} "
+                                  f"interleaved chunks ({chunksize} cases each) evaluated")
+                if f.cancelled():
+                    continue
+                yield f.result()
+        results = gen()
     for cnt, probs, samples in results:
         total.update(cnt)
         done += 1
